@@ -549,8 +549,12 @@ Definition breaker_layer (pos inst : nat) (inner : layer) : layer := fun c w =>
       let '(s3, evs') := record conc_impl cfg s2 (w_now w3) true None in
       (r', emit_bevents (set_breaker w3 inst s3) pos evs').
 
-(* rate limiter (ratelimiterexecutor.go Apply + acquirePermitsWithMaxWait with an execution) *)
-Definition limiter_layer (pos inst : nat) (maxwait : Z) (inner : layer) : layer := fun c w =>
+(* rate limiter (ratelimiterexecutor.go Apply + acquirePermitsWithMaxWait with an execution).
+   A wait that is interrupted by the cancellation of the execution returns the cancellation's result error
+   (since the fix: commit for finding F12).  [stale = true] is the code as it was: it returned Execution.LastError()
+   -- the PREVIOUS attempt's error when there is one -- and, when that stale error happened to be ErrExceeded,
+   fired OnRateLimitExceeded although nothing was refused. *)
+Definition limiter_layer_gen (stale : bool) (pos inst : nat) (maxwait : Z) (inner : layer) : layer := fun c w =>
   let '(cfg, base, s) := nth inst (w_limiters w) (Smooth 1, 0, SSmooth 0) in
   let '(wt, s') := lim_acquire cfg s (w_now w - base) 1 maxwait in
   let w1 := set_insts w (w_breakers w) (upd inst (fun p => (fst p, s')) (w_limiters w)) (w_bulkheads w) (w_caches w) in
@@ -559,8 +563,17 @@ Definition limiter_layer (pos inst : nat) (maxwait : Z) (inner : layer) : layer 
   else
     let '(i, w2) := wait w1 wt (Some c) in
     if i then
-      (failure_result (match last_error w2 c with Some e => e | None => EOther end), w2)
+      if stale then
+        let e := match last_error w2 c with Some e => e | None => EOther end in
+        (failure_result e, if errors_is e ERate then stamp (emit w2 KRateExceeded pos (snapshot w2 c) 0) c else w2)
+      else
+        (failure_result (match is_canceled w2 c with
+                         | Some cr => match pr_err cr with Some e => e | None => EOther end
+                         | None => EOther
+                         end), w2)
     else inner c w2.
+
+Definition limiter_layer := limiter_layer_gen false.
 
 (* bulkhead (sequential: no other execution releases a permit while this one waits) *)
 Definition bulkhead_layer (pos inst : nat) (maxwait : Z) (inner : layer) : layer := fun c w =>
